@@ -302,7 +302,8 @@ class BitSet(BaseBitSet):
         """
 
         # If the source is a list, tuple, or set, we can guess the size
-        if not size and isinstance(source, (list, tuple, set, frozenset)):
+        if (not size and source
+            and isinstance(source, (list, tuple, set, frozenset))):
             size = max(source)
         bytecount = bytes_for_bits(size)
         self.bits = array("B", (0 for _ in xrange(bytecount)))
@@ -454,7 +455,8 @@ class SortedIntSet(DocIdSet):
 
     def __init__(self, source=None, typecode="I"):
         if source:
-            self.data = array(typecode, sorted(source))
+            # (a set: the same number given twice is one member)
+            self.data = array(typecode, sorted(set(source)))
         else:
             self.data = array(typecode)
         self.typecode = typecode
@@ -532,10 +534,10 @@ class SortedIntSet(DocIdSet):
         return SortedIntSet((num for num in self if num not in other))
 
     def first(self):
-        return self.data[0]
+        return self.data[0] if self.data else None
 
     def last(self):
-        return self.data[-1]
+        return self.data[-1] if self.data else None
 
     def before(self, i):
         data = self.data
